@@ -28,6 +28,16 @@ PicksBefore(groups, g) == IF g = 1 THEN 0 ELSE PicksBefore(groups, g - 1) + Len(
 NamesAbsentDc(w, s) ==
   w.strat = "nts" /\ \E dc \in DOMAIN KsRf(w) : KsRf(w)[dc] > 0 /\ ~\E h \in RangeOf(s.members) : w.dc[h] = dc
 
+\* the replica list the policy's replica map holds for token q, judged against Cassandra's placement on
+\* the current ring - ALL ring members, whether up or down: placement does not depend on liveness
+StoredKinds(w, s, q, rep) ==
+  LET pl == IF TokenAware(w, s, q) THEN Placement(w, s, q) ELSE <<>> IN
+  IF pl = <<>> THEN {}
+  ELSE LET ring == CurRing(w, s)
+           p == PrimaryIndex(CurTokens(w, s), q)
+           holds == IF w.strat = "simple" THEN SimpleOwnerHolds(w.rfn[1]) ELSE NtsOwnerHolds(ring, p, w.dc, KsRf(w))
+       IN Failing(rep, pl, ring, p, holds)
+
 \* first occurrences only
 RECURSIVE Dedup(_)
 Dedup(seq) == IF seq = <<>> THEN <<>>
@@ -35,7 +45,7 @@ Dedup(seq) == IF seq = <<>> THEN <<>>
                    IF x \in RangeOf(d) THEN d ELSE Append(d, x)
 Dups(seq) == {seq[k] : k \in {j \in 1 .. Len(seq) : \E m \in 1 .. j - 1 : seq[m] = seq[j]}}
 
-GroupVerdict(w, s, groups, g) ==
+GroupVerdict(w, s, hist, groups, g) ==
   LET grp == groups[g]
       cx == QCtx(w, s, grp.q)
       n == Len(grp.picks)
@@ -57,11 +67,15 @@ GroupVerdict(w, s, groups, g) ==
                             : i \in 1 .. n}
       known == Known(s)
       \* (no order is predicted in the ambiguous corner)
-      drift == (IF ~amb /\ \E i \in 1 .. n : Rest(cx, grp.picks[i]) # Rest(cx, Offer(w, s, cx, base + i)) THEN {"order"} ELSE {}) \cup
+      \* overlapped update calls ("par") leave the order inside the host lists open: no order predicted
+      overlapped == \E k \in 1 .. Len(hist) : hist[k].op = "par"
+      drift == (IF ~amb /\ ~overlapped /\ \E i \in 1 .. n : Rest(cx, grp.picks[i]) # Rest(cx, Offer(w, s, cx, base + i)) THEN {"order"} ELSE {}) \cup
                (IF \E i \in 1 .. n : \E k \in 1 .. Len(grp.picks[i]) : grp.picks[i][k] # 0 /\ grp.picks[i][k] \notin known
                 THEN {"offers-unknown-host"} ELSE {})
   IN [g |-> g, q |-> grp.q, kinds |-> kinds, drift |-> drift,
       realdup |-> realdup, kinds2 |-> kinds2, realrep |-> grp.realrep,
+      stored |-> IF realdup THEN {} ELSE StoredKinds(w, s, grp.q, grp.realrep),
+      placement |-> IF cx.ta THEN Placement(w, s, grp.q) ELSE <<>>,
       emptymid |-> /\ w.pol = "rack" /\ w.nonlocal /\ cx.ta
                    /\ \A h \in RangeOf(cx.reps) : Tier(w, h) # 1
                    /\ \E h \in cx.far : Tier(w, h) = 2,
@@ -77,13 +91,6 @@ GroupVerdict(w, s, groups, g) ==
 SeqKinds(w, s, q, seq, capped) ==
   LET k0 == PickFailing(w, s, QCtx(w, s, q), seq, capped) IN
   IF k0 # {} /\ Ambiguous(w, s, q) /\ PickFailing(w, s, QCtxAlt(w, s, q), seq, capped) = {} THEN {} ELSE k0
-StoredKinds(w, s, q, rep) ==
-  LET pl == IF TokenAware(w, s, q) THEN Placement(w, s, q) ELSE <<>> IN
-  IF pl = <<>> THEN {}
-  ELSE LET ring == CurRing(w, s)
-           p == PrimaryIndex(CurTokens(w, s), q)
-           holds == IF w.strat = "simple" THEN SimpleOwnerHolds(w.rfn[1]) ELSE NtsOwnerHolds(ring, p, w.dc, KsRf(w))
-       IN Failing(rep, pl, ring, p, holds)
 IlVerdict(w, s, il, g) ==
   LET grp == il[g]
       n == Len(grp.qs)
@@ -99,12 +106,12 @@ Verdict(r) ==
   LET w == r.w
       upto == IF r.pat > 0 THEN r.pat ELSE Len(r.hist)
       s == StateAfter(w, r.hist, upto)
-      gv == [g \in 1 .. Len(r.groups) |-> GroupVerdict(w, s, r.groups, g)]
+      gv == [g \in 1 .. Len(r.groups) |-> GroupVerdict(w, s, r.hist, r.groups, g)]
       iv == [g \in 1 .. Len(r.il) |-> IlVerdict(w, s, r.il, g)]
-  IN [id |-> r.id, pclass |-> r.pclass, pat |-> r.pat, pgrp |-> r.pgrp, pil |-> r.pil,
+  IN [id |-> r.id, pclass |-> r.pclass, pat |-> r.pat, pgrp |-> r.pgrp, pil |-> r.pil, xov |-> r.xov,
       ilbad |-> {iv[g] : g \in {x \in 1 .. Len(r.il) : iv[x].kinds # {} \/ iv[x].stored # {}}},
       absentdc |-> NamesAbsentDc(w, s), emptyring |-> Len(CurRing(w, s)) = 0,
-      bad |-> {gv[g] : g \in {x \in 1 .. Len(r.groups) : gv[x].kinds # {}}},
+      bad |-> {gv[g] : g \in {x \in 1 .. Len(r.groups) : gv[x].kinds # {} \/ gv[x].stored # {}}},
       drift |-> UNION {gv[g].drift : g \in 1 .. Len(r.groups)},
       driftsample |-> LET ds == {x \in 1 .. Len(r.groups) : gv[x].drift # {}} IN
                       IF ds = {} THEN <<>> ELSE <<gv[CHOOSE x \in ds : \A y \in ds : x <= y]>>]
@@ -119,6 +126,7 @@ WellFormed(r) == /\ Len(r.w.ring) = Len(r.w.tokens) /\ Len(r.w.dc) = Len(r.w.rac
 Report == l > 0 =>
   IF ~WellFormed(Log[l]) THEN PrintT(<<"MALFORMED", ToJson([id |-> Log[l].id])>>)
   ELSE LET v == Verdict(Log[l]) IN
-       /\ (v.pclass # "none" \/ v.bad # {} \/ v.ilbad # {}) => PrintT(<<"VIOL", ToJson(v)>>)
-       /\ (v.pclass = "none" /\ v.bad = {} /\ v.ilbad = {} /\ v.drift # {}) => PrintT(<<"DRIFT", ToJson(v)>>)
+       \* xov: calls that entered the NextHost function of one query while another call was inside it
+       /\ (v.pclass # "none" \/ v.bad # {} \/ v.ilbad # {} \/ v.xov > 0) => PrintT(<<"VIOL", ToJson(v)>>)
+       /\ (v.pclass = "none" /\ v.bad = {} /\ v.ilbad = {} /\ v.xov = 0 /\ v.drift # {}) => PrintT(<<"DRIFT", ToJson(v)>>)
 =============================================================================
